@@ -111,6 +111,22 @@ def ew(f, *args):
     return r
 
 
+def _ew2_dedup(f, a, b):
+    """ew(f, a, b) for large arrays with many repeated operand pairs (padded / replicated data): f is evaluated once per
+    distinct pair of operand *objects* and the result object is shared."""
+    a, b = np.broadcast_arrays(lift(a), lift(b))
+    af, bf = a.reshape(-1), b.reshape(-1)
+    if af.size == 0:
+        return ew(f, a, b)
+    key = np.frompyfunc(lambda v: 2 * v.get_id() + 1 if isz(v) else 2 * id(v), 1, 1)  # hash-consed z3 terms: AST id; else object identity
+    keys = np.stack([key(af).astype(np.int64), key(bf).astype(np.int64)], axis=1)
+    _, first, inv = np.unique(keys, axis=0, return_index=True, return_inverse=True)
+    vals = np.empty(len(first), dtype=object)
+    for k, i in enumerate(first):
+        vals[k] = f(af[i], bf[i])
+    return vals[np.asarray(inv).reshape(-1)].reshape(a.shape)
+
+
 def symarr(name, shape, sort="real", cplx=False):
     """fresh symbolic array; entries named name_i_j_k."""
     mk = {"real": z3.Real, "int": z3.Int, "bool": z3.Bool}[sort]
@@ -271,6 +287,8 @@ class Interp:
         if p == "unvmap_max":
             return ins[0]
         if p == "select_if_vmap":
+            if not (is_obj(ins[0]) and has_z3(ins[0])) and np.ndim(ins[0]) == 0:
+                return ins[1] if bool(to_numeric(ins[0])) else ins[2]  # concrete unbatched predicate (operands may be float0)
             g = getattr(self, "_path_true", None)
             if g and is_obj(ins[0]) and ins[0].size == 1 and isz(ins[0].reshape(-1)[0]) and _known_true(ins[0].reshape(-1)[0], g):
                 return ins[1]  # exit-chain mode: the loop predicate is known true on this path (unbatched select_if_vmap = its 2nd operand)
@@ -704,6 +722,10 @@ class Interp:
                 q = z3.If(x >= 0, x, -x) / z3.If(y >= 0, y, -y)
                 return z3.If((x >= 0) == (y >= 0), q, -q)
             return sc.div(a, b)
+        if np.size(ins[0]) >= 20000 and np.ndim(ins[1]) == 0 and not has_z3(ins[1]):
+            # large replicated array / one concrete divisor: same result, evaluated once per distinct operand object
+            d = lift(ins[1])[()]
+            return _ew2_dedup(f, ins[0], np.full(np.shape(ins[0]), d, dtype=object))
         return ew(f, ins[0], ins[1])
 
     def p_rem(self, e, ins):
@@ -946,7 +968,9 @@ class Interp:
         ids = jnp.asarray(np.arange(1, lhs.size + 1).reshape(lhs.shape).astype(dt))
         pool = np.empty(lhs.size + 1, dtype=object)
         pool[0] = 0
-        pool[1:] = lhs.reshape(-1)
+        # equal concrete scalars share one object, so that identical (a, b) operand pairs are recognised by identity below
+        table = {}
+        pool[1:] = np.frompyfunc(lambda v: v if (isz(v) or isinstance(v, Cx)) else table.setdefault((type(v), v), v), 1, 1)(lhs.reshape(-1)) if lhs.size else lhs.reshape(-1)
         out = None
         for tap in taps:
             k = np.zeros(rhs.shape, dtype=e.invars[1].aval.dtype)
@@ -961,7 +985,7 @@ class Interp:
                 if coef == int(coef):
                     coef = int(coef)
                 term = ew(lambda v, coef=coef: sc.mul(coef, v), term)
-            out = term if out is None else ew(sc.add, out, term)
+            out = term if out is None else _ew2_dedup(sc.add, out, term)
         if out is None:
             out = lift(np.zeros(e.outvars[0].aval.shape))
         return out
